@@ -19,7 +19,7 @@ EXPLANATION = (
     "sub-buffer push(data) ≺ seqP[idx] := pw + mask + 1, and `return true` only after it; R30.2 pop: read pr ≺ idx ≺ read seqC[idx] ≺ "
     "(pr == seq) ≺ [seqP[idx] <= seq → return false] ≺ CAS(preadC, pr+1, pr) ≺ sub-buffer pop ≺ seqC[idx] := pr + mask + 1; R30.3 init: "
     "seqP[i] = seqC[i] = i, preadP = preadC = 0, mask = nqueues - 1 with nqueues a power of two; R30.4 wrapper: try_push constructs a "
-    "copy in fresh memory and pushes its pointer; try_pop passes &target; release destroys and frees. R30.5 BufferPool::release resets a drained segment before publishing it to the producers' cache. NOT decided: interleavings.")
+    "copy in fresh memory and pushes its pointer; try_pop passes &target; release destroys and frees. R30.5 BufferPool::release resets a drained segment before publishing it to the producers' cache. R30.6 every sub-queue is constructed growable (fixedsize = false: uMPMC push ignores the sub-queue's result); R30.7 uSWSR_Ptr_Buffer::push returns true only on paths on which the element was stored into the write segment current at the return; R30.8 BufferPool::next_w registers every segment it hands out in `inuse`. NOT decided: interleavings.")
 
 Q = 'ff::uMPMC_Ptr_Queue::'
 
